@@ -36,6 +36,12 @@ def run(ctx):
             raise vlib.Broken("no configurations for " + name)
         total += len(behs)
         replay_family(ctx, "when", behs, env={"VERIF_SIG": name}, classify=classify)
+    # conditional stubs on INTERFACE methods: two stubbed methods of one variable, the builder dropped, collections, then calls of either
+    # method - the configured results, never garbage (Iface.tla kinds stub / when; replayed under clobberfree)
+    gd = ctx.tlc("MC_Iface", "Gen_Iface.cfg", workers=1, timeout=1500, constants={"MaxOps": 5, "V": '{"i1"}', "M": "<- M1h", "Kinds": '{"stub", "when"}', "Args": "{7}", "Ops": '{"Mock", "Drop", "GC", "Call"}'},
+                 tag="interface stubs: two methods of one variable, Drop, GC, Call")
+    db = [b for b in ctx.behaviours(gd) if b[-1]["op"] == "Call" and "GC" in {x["op"] for x in b} and sum(1 for x in b if x["op"] == "Mock") >= 2]
+    replay_family(ctx, "iface", db, env={"GODEBUG": "clobberfree=1"}, batch=4000)
     # stubs with MANY conditions (Scale.tla: 1..120 conditions, every argument 0..n+1 called; chained and re-looked-up handles)
     from checks import life
     life.scale(ctx, 60, 1200, ops={"CondStub"})
